@@ -100,6 +100,11 @@ package decor
 //@ iface ShutdownListener.OnShutdown
 //@   modifies pkgstate("decor")
 
+//@ iface AverageDecorator.AverageAdjust
+//@   params   start
+//@   requires self != nil
+//@   modifies pkgstate("decor")
+
 //@ iface Synchronizer.Sync
 //@   modifies nothing
 
@@ -300,6 +305,12 @@ package decor
 //@ func chooseTimeProducer
 //@   props    C07 C02 C20
 //@   ensures  result != nil
+//@   ensures  chosen: fnof(result) == ite(style == ET_STYLE_HHMMSS, fn("chooseTimeProducer$1"), ite(style == ET_STYLE_HHMM, fn("chooseTimeProducer$2"), ite(style == ET_STYLE_MMSS, fn("chooseTimeProducer$3"), fn("chooseTimeProducer$4"))))
+// the default style prints the duration cut to whole seconds, in Go's notation
+//@ func chooseTimeProducer$4
+//@   props    C20 C02
+//@   modifies nothing
+//@   ensures  seconds: calledWith("(time.Duration).Truncate", 0) == remaining && calledWith("(time.Duration).Truncate", 1) == 1000000000 && calledWith("(time.Duration).String", 0) == returned("(time.Duration).Truncate", 0) && result == returned("(time.Duration).String", 0)
 //@ func chooseSpeedProducer
 //@   props    C07 C02 C20
 //@   ensures  result != nil
@@ -702,10 +713,15 @@ package decor
 //@ func Spinner
 //@   props    C02 C07
 //@   ensures  result != nil
+//@   ensures  built: called("Any") == old(called("Any")) + 1 && fnof(calledWith("Any", 0)) == fn("Spinner$1") && calledWith("Any", 1) == wcc && result == returned("Any", 0)
+//@              && (len(in(frames)) > 0 ==> bound(calledWith("Any", 0), "frames") == in(frames)) && len(bound(calledWith("Any", 0), "frames")) > 0
+// the spinner shows its frames in order, one per call, round and round
 //@ func Spinner$1
 //@   props    C02 C07
 //@   wraps    uint
 //@   requires len(frames) > 0
+//@   modifies count
+//@   ensures  cycle: result == frames[old(count) % len(frames)] && count == (old(count) + 1) % 18446744073709551616
 
 // shortcuts of the estimator constructors: their own arguments, the current time, the library's
 // default average (C20: which estimator a bar ends up with)
